@@ -62,6 +62,31 @@ class Summary:
         return hir.fold(position_values(hir.resolve_consts(term, self.F), self.F), a, self.D, self.helpers, chess_evalcalls(board))
 
 
+def right_bits(F):
+    """{short right name: bit of GameState.bitfield}, read off the reference getters (`white_king_castling(&self) -> bool` ...) by
+    evaluating each on the eight one-bit values of the byte; None when a getter does not select exactly one bit"""
+    out = {}
+    for long, short in RIGHTS.items():
+        fn = F.fns.get(GS + "%s_castling" % long)
+        if fn is None:
+            return None
+        try:
+            nf = hir.summarize(fn, F)
+        except hir.Unsupported:
+            return None
+        bits = []
+        for b in range(8):
+            v = hir.fold(nf, {("field", ("var", "self"), "bitfield"): ("lit", 1 << b)})
+            if v == ("lit", True):
+                bits.append(b)
+            elif v != ("lit", False):
+                return None
+        if len(bits) != 1:
+            return None
+        out[short] = bits[0]
+    return out if len(set(out.values())) == 4 else None
+
+
 def updates(t):
     """[(arg, arg, ..)] of a folded chain of ("rec", previous, args...) terms, oldest first; None if it is not a plain chain"""
     out = []
@@ -103,8 +128,10 @@ def move_cases():
     # other pieces on corners and king squares
     normal("queen a1-a5", "White", "Queen", (0, 0), (4, 0), may=("wq",))
     normal("bishop h8-g7", "Black", "Bishop", (7, 7), (6, 6), may=("bk",))
-    normal("rook e8-c8 (white rook on the black king square)", "White", "Rook", (7, 4), (7, 2))
-    normal("queen e1-g1 (black queen on the white king square)", "Black", "Queen", (0, 4), (0, 6))
+    # (while a side still has a right its king stands on its home square: a right "lost" by another piece leaving that square was
+    # not there)
+    normal("rook e8-c8 (white rook on the black king square)", "White", "Rook", (7, 4), (7, 2), may=("bk", "bq"))
+    normal("queen e1-g1 (black queen on the white king square)", "Black", "Queen", (0, 4), (0, 6), may=("wk", "wq"))
     normal("rook takes bishop on h1", "Black", "Rook", (4, 7), (0, 7), captured=piece("Bishop", "White"), may=("wk",))
     normal("knight takes queen on a8", "White", "Knight", (5, 1), (7, 0), captured=piece("Queen", "Black"), may=("bq",))
     normal("bishop takes rook h8", "White", "Bishop", (1, 1), (7, 7), captured=piece("Rook", "Black"), cleared=("bk",))
@@ -188,6 +215,17 @@ def check_push(F):
         if k is not None and k != want_k:
             probs.append("cached king squares set to %s, expected %s" % (k, want_k))
         cleared = set()
+        bf = S.field("bitfield")
+        if bf is not None and all(S.field(short) is None for short in RIGHTS.values()):
+            # the rights are cleared by mask operations on the state byte (no per-right setter): evaluate the byte from "all rights
+            # held" and read the four bits back through the reference getters
+            bits = right_bits(F)
+            init = {t_: ("lit", 0xFF) for t_ in hir.subterms(bf) if isinstance(t_, tuple) and t_[:1] == ("field",) and t_[-1] == "bitfield"}
+            v = hir.fold(S.eval(hir.subst(bf, init), mv, owner, board), {}) if bits else None
+            if v is None or v[0] != "lit" or not isinstance(v[1], int):
+                probs.append("castling rights: the state byte after the move is undecided (%s)" % (hir.fmt(v, 80) if v else "no getter table"))
+            else:
+                cleared = {short for short, b in bits.items() if not (v[1] >> b) & 1}
         for long, short in RIGHTS.items():
             t = S.field(short)
             if t is None:
